@@ -1,7 +1,7 @@
 """Instruction semantics for asmx (Intel syntax operands parsed by decode.py)."""
 from z3 import (BitVecVal, BoolVal, And, Or, Not, Xor, If, Concat, Extract, ZeroExt, SignExt, LShR, ULT, ULE, UGT, UGE, RotateLeft, RotateRight,
                 simplify, is_bv_value, is_true, is_false, sat)
-from vlib.asmx.engine import (Unsupported, bv, simp as _simp, conc, fresh, small, AESENC, AESENCLAST, AESDEC, AESDECLAST, AESIMC, SBOX32, CLMUL, RET_SENTINEL)
+from vlib.asmx.engine import (Unsupported, bv, simp as _simp, conc, fresh, small, fresh_like, tainted, AESENC, AESENCLAST, AESDEC, AESDECLAST, AESIMC, SBOX32, CLMUL, RET_SENTINEL)
 from vlib.asmx.decode import GPR
 
 _SWEEP = [False]
@@ -187,6 +187,12 @@ def execute(E, st, ins):
             E.set_flags_arith(st, 'sub', a, b, r, w, cin)
         if m != 'cmp':
             E.put(st, ins, o[0], r, w)
+        return done()
+    if m in ('xor', 'sub') and o[0].kind == 'gpr' and o[1].kind == 'gpr' and o[0].text == o[1].text:
+        w = o[0].width      # zeroing idiom: the result does not depend on the old value
+        z = bv(0, w)
+        E.set_flags_arith(st, 'logic', z, z, z, w)
+        E.putg(st, o[0], z)
         return done()
     if m in ('and', 'or', 'xor', 'test') and o[0].kind in ('gpr', 'mem'):
         w = o[0].width or o[1].width
@@ -441,33 +447,53 @@ def execute(E, st, ins):
 
 
 M64 = (1 << 64) - 1
+ZERO_IDIOMS = {'pxor', 'xorps', 'xorpd', 'vpxor', 'vxorps', 'vxorpd', 'vpxord', 'vpxorq', 'psubb', 'psubw', 'psubd', 'psubq', 'vpsubd', 'vpsubq', 'pcmpgtd'}
+
+
+def source_terms(E, st, ins):
+    """values the instruction reads (for taint inheritance of a havoc'd destination)"""
+    out = []
+    for k, x in enumerate(ins.ops):
+        try:
+            if x.kind == 'gpr':
+                out.append(st.r[x.reg])
+            elif x.kind == 'vec':
+                out.append(st.v[x.reg])
+            elif x.kind == 'k':
+                out.append(st.k[x.reg])
+            elif x.kind == 'mem' and not (k == 0 and ins.mnem.startswith(('mov', 'vmov')) ):
+                w = x.width or vwidth(ins)
+                out.append(E.load(st, E.ea(st, ins, x), w // 8, ins))
+        except Unsupported:
+            pass
+    return out
 
 
 def havoc_dest(E, st, ins):
     m, o = ins.mnem, ins.ops
     E.havoc_count[m] = E.havoc_count.get(m, 0) + 1
+    srcs = source_terms(E, st, ins) if E.track_taint else []
+    if m in ZERO_IDIOMS and len(o) >= 2 and o[-1].kind == 'vec' and o[-2].kind == 'vec' and o[-1].reg == o[-2].reg and o[0].kind == 'vec':
+        st.v[o[0].reg] = bv(0, 512) if m.startswith('v') else _simp(Concat(Extract(511, 128, st.v[o[0].reg]), bv(0, 128)))
+        return
     if m in FLAGS_ONLY or m in NOWRITE:
         if m in FLAGS_ONLY:
-            st.flags = None
+            st.flags = 'S' if any(tainted(x) for x in srcs) else None
         return
     if not o:
         return
     d = o[0]
     if d.kind == 'gpr':
         # a general-purpose destination written by an instruction we do not model exactly: fresh value, flags unknown
-        E.putg(st, d, fresh(d.width, 'g'))
-        st.flags = None
+        E.putg(st, d, fresh_like(d.width, srcs, 'g'))
+        st.flags = 'S' if any(tainted(x) for x in srcs) else None
     elif d.kind == 'vec':
-        st.v[d.reg] = fresh(512, 'v')
+        st.v[d.reg] = fresh_like(512, srcs, 'v')
     elif d.kind == 'k':
-        st.k[d.reg] = fresh(64, 'k')
+        st.k[d.reg] = fresh_like(64, srcs, 'k')
     elif d.kind == 'mem':
         w = d.width or vwidth(ins)
-        E.store(st, E.ea(st, ins, d), w // 8, fresh(w, 'm'), ins)
-    # two-destination forms we know of
-    if m in ('vpextrb', 'vpextrw', 'vpextrd', 'vpextrq', 'pextrb', 'pextrw', 'pextrd', 'pextrq', 'vmovd', 'vmovq', 'movd', 'movq', 'kmovw', 'kmovq', 'kmovd', 'kmovb',
-             'vpmovmskb', 'pmovmskb', 'vmovmskps', 'movmskps', 'vcvtsd2si', 'vcvttsd2si'):
-        pass
+        E.store(st, E.ea(st, ins, d), w // 8, fresh_like(w, srcs, 'm'), ins)
 
 
 def call_external(E, st, ins, target, tail):
